@@ -329,11 +329,11 @@ package ast
 
 // ---- C14: every mapper of the direct route hands a node up the chain (assume/guarantee over the grammar of
 // parser.New, as for the NFA route) ----
-//@ spec func qOK(q any) bool = (typeis(q, "rune") && (unbox(q, "rune") == '?' || unbox(q, "rune") == '*' || unbox(q, "rune") == '+')) || typeis(q, "tuple[int, *int]")
+//@ spec func astQuantOK(q any) bool = (typeis(q, "rune") && (unbox(q, "rune") == '?' || unbox(q, "rune") == '*' || unbox(q, "rune") == '+')) || typeis(q, "tuple[int, *int]")
 //@ func quantifyNode(n Node, q any) Node
 //@   modifies everything
 //@   requires isNode(n)
-//@   assumes @L-COMB qOK(q)
+//@   assumes @L-COMB astQuantOK(q)
 //@   ensures @never-nil result != nil
 //@ func runeToChar(r rune) *Char
 //@   fresh-result
@@ -344,12 +344,12 @@ package ast
 //@ func (m *mappers) ToMatch(r comb.Result) (comb.Result, bool)
 //@   modifies everything
 //@   assumes @L-COMB typeis(r.Val, "comb.List") && len(unbox(r.Val, "comb.List")) == 2 && isNode(unbox(r.Val, "comb.List")[0].Val)
-//@   assumes @L-COMB typeis(unbox(r.Val, "comb.List")[1].Val, "tuple[any, bool]") ==> qOK(unbox(unbox(r.Val, "comb.List")[1].Val, "tuple[any, bool]").p)
+//@   assumes @L-COMB typeis(unbox(r.Val, "comb.List")[1].Val, "tuple[any, bool]") ==> astQuantOK(unbox(unbox(r.Val, "comb.List")[1].Val, "tuple[any, bool]").p)
 //@   ensures @node result1 && result0.Val != nil
 //@ func (m *mappers) ToGroup(r comb.Result) (comb.Result, bool)
 //@   modifies everything
 //@   assumes @L-COMB typeis(r.Val, "comb.List") && len(unbox(r.Val, "comb.List")) == 4 && isNode(unbox(r.Val, "comb.List")[1].Val)
-//@   assumes @L-COMB typeis(unbox(r.Val, "comb.List")[3].Val, "tuple[any, bool]") ==> qOK(unbox(unbox(r.Val, "comb.List")[3].Val, "tuple[any, bool]").p)
+//@   assumes @L-COMB typeis(unbox(r.Val, "comb.List")[3].Val, "tuple[any, bool]") ==> astQuantOK(unbox(unbox(r.Val, "comb.List")[3].Val, "tuple[any, bool]").p)
 //@   ensures @node result1 && result0.Val != nil
 //@ func (m *mappers) ToSubexpr(r comb.Result) (comb.Result, bool)
 //@   assumes @L-COMB typeis(r.Val, "comb.List")
